@@ -50,6 +50,8 @@ class AppRun:
         lib.reset_globals()
         if spec.get("module_reconnect") is not None:
             lib.websocket.setReconnect(spec["module_reconnect"])
+        if spec.get("default_timeout") is not None:
+            lib.websocket.setdefaulttimeout(spec["default_timeout"])  # the process-wide default socket timeout
         env.install_urandom("counter")
         sc = S.Sched(self.ch, line_level=spec.get("line_level", False), horizon=spec.get("horizon", 500.0),
                      max_steps=spec.get("max_steps", 60000), line_filter=spec.get("line_filter"), stall=spec.get("stall", False), preempt_cost=spec.get("preempt_cost", 2), tie_cost=spec.get("tie_cost", 1))
